@@ -194,7 +194,7 @@ def _lint_file_worker(args: tuple[Path, Path, dict]) -> list[dict]:
     try:
         # Create isolated orchestrator for this worker process
         orchestrator = Orchestrator(project_root=project_root, config=config)
-        violations = orchestrator.lint_file(file_path)
+        violations = orchestrator._lint_one_file(file_path)  # pylint: disable=protected-access
         # Convert to dicts for pickling
         return [v.to_dict() for v in violations]
     except ValueError:
@@ -307,12 +307,19 @@ class Orchestrator:  # thailint: ignore[srp]
     def lint_file(self, file_path: Path) -> list[Violation]:
         """Lint a single file.
 
+        A call is a complete run of its own: cross-file rules are finalized, so nothing seen
+        here is carried into (or reported again by) the next call on this object.
+
         Args:
             file_path: Path to file to lint.
 
         Returns:
             List of violations found in the file.
         """
+        return self.lint_files([file_path])
+
+    def _lint_one_file(self, file_path: Path) -> list[Violation]:
+        """Run the per-file rules on one file (cross-file rules only collect their state)."""
         # Fast path: skip compiled files and common excluded directories
         # (decided by the path inside the project, not by where the project lives)
         if _is_hardcoded_excluded(self._path_in_project(file_path)):
@@ -349,7 +356,7 @@ class Orchestrator:  # thailint: ignore[srp]
         violations = []
 
         for file_path in file_paths:
-            violations.extend(self.lint_file(file_path))
+            violations.extend(self._lint_one_file(file_path))
 
         # Call finalize() on all rules after processing all files
         for rule in self.registry.list_all():
@@ -445,7 +452,7 @@ class Orchestrator:  # thailint: ignore[srp]
         file_paths = _collect_files_fast(dir_path, recursive)
 
         for file_path in file_paths:
-            violations.extend(self.lint_file(file_path))
+            violations.extend(self._lint_one_file(file_path))
 
         # Call finalize() on all rules after processing all files
         for rule in self.registry.list_all():
